@@ -2296,4 +2296,6 @@ class Transaction(object):
         self.fee = fee
         for o in outputs_to_delete:
             self.outputs.remove(o)
+        for n, o in enumerate(self.outputs):
+            o.output_n = n
         self.sign_and_update()
